@@ -461,6 +461,33 @@ func runC13(r *fw.Runner) {
 		)
 		c13Run(c, cases)
 	})
+	// one text judged under two rules one after the other: a URI reference is fine as an also-known-as entry and no service endpoint,
+	// and the verdict under one rule is not carried over to the other
+	r.Case("same-text-under-two-rules", func(c *fw.Case) {
+		var cases []labelled
+		for i, u := range []string{"example.com/profile", "not-a-uri", "#frag", "?q=1", "profile", "did", "a b"} {
+			svc := gen.RandService(c.Rng, "svc1")
+			svc["serviceEndpoint"] = u
+			lst := gen.RandService(c.Rng, "svc2")
+			lst["serviceEndpoint"] = []interface{}{"https://ok.example", u}
+			cases = append(cases,
+				labelled{fmt.Sprintf("also-known-as/uri-reference-%d", i), gen.PAddAka(u), true},
+				labelled{fmt.Sprintf("add-services/endpoint-seen-as-also-known-as-%d", i), gen.PAddServices(svc), false},
+				labelled{fmt.Sprintf("remove-also-known-as/uri-reference-%d", i), gen.PRemoveAka(u, "https://x.example"), true},
+				labelled{fmt.Sprintf("add-services/endpoint-list-entry-seen-as-also-known-as-%d", i), gen.PAddServices(lst), false},
+				labelled{fmt.Sprintf("replace/endpoint-seen-as-also-known-as-%d", i), gen.PReplace(nil, []interface{}{svc}), false})
+		}
+		for i, u := range []string{"http://a.example/b#c", "https://a.example/x?y#z"} {
+			svc := gen.RandService(c.Rng, "svc1")
+			svc["serviceEndpoint"] = u
+			enc := strings.Replace(u, "#", "%23", 1)
+			cases = append(cases,
+				labelled{fmt.Sprintf("add-services/endpoint-with-fragment-%d", i), gen.PAddServices(svc), true},
+				labelled{fmt.Sprintf("also-known-as/fragment-and-escaped-number-sign-%d", i), gen.PAddAka(u, enc), true},
+				labelled{fmt.Sprintf("also-known-as/escaped-number-sign-and-fragment-%d", i), gen.PAddAka(enc, u), true})
+		}
+		c13Run(c, cases)
+	})
 	r.Case("original-documents", func(c *fw.Case) {
 		dv, didv := docvalidator.New(), didvalidator.New()
 		key := baseKey(c.Rng, "key1")
@@ -479,15 +506,29 @@ func runC13(r *fw.Runner) {
 			{"id-and-context", map[string]interface{}{"id": "did:example:1", "@context": []interface{}{"https://www.w3.org/ns/did/v1"}}, false, false},
 		}
 		for _, d := range docs {
-			b := oracle.MustJCS(d.doc)
-			c.Count("original-documents", 2)
-			c.Evals(2)
-			c.Sig("orig", d.name)
-			if err := dv.IsValidOriginalDocument(b); (err == nil) != d.okDoc {
-				c.Failf("original-document:"+d.name, map[string]interface{}{"document": string(b), "err": fmt.Sprint(err), "expected_valid": d.okDoc}, "generic validator: original document %q verdict wrong (err=%v)", d.name, err)
+			// the canonical text and other texts of the same document: members reordered, blanks, every member name and text written
+			// with \uXXXX escapes (a name is the name it decodes to)
+			texts := [][]byte{oracle.MustJCS(d.doc), gen.Spell(c.Rng, oracle.MustGeneric(d.doc), gen.AllSpell), gen.Spell(c.Rng, oracle.MustGeneric(d.doc), gen.AllSpell)}
+			esc := string(oracle.MustJCS(d.doc))
+			for _, nm := range []string{"id", "@context", "publicKey", "service"} {
+				e := ""
+				for _, ch := range nm {
+					e += fmt.Sprintf("\\u%04x", ch)
+				}
+				esc = strings.ReplaceAll(esc, `"`+nm+`":`, `"`+e+`":`)
+				texts = append(texts, []byte(strings.ReplaceAll(string(oracle.MustJCS(d.doc)), `"`+nm+`":`, `"`+e[:6]+nm[1:]+`":`)))
 			}
-			if err := didv.IsValidOriginalDocument(b); (err == nil) != d.okDID {
-				c.Failf("original-did-document:"+d.name, map[string]interface{}{"document": string(b), "err": fmt.Sprint(err), "expected_valid": d.okDID}, "DID validator: original document %q verdict wrong (err=%v)", d.name, err)
+			texts = append(texts, []byte(esc))
+			for ti, b := range texts {
+				c.Count("original-documents", 2)
+				c.Evals(2)
+				c.Sig("orig", d.name, ti)
+				if err := dv.IsValidOriginalDocument(b); (err == nil) != d.okDoc {
+					c.Failf("original-document:"+d.name, map[string]interface{}{"document": string(b), "err": fmt.Sprint(err), "expected_valid": d.okDoc}, "generic validator: original document %q verdict wrong (err=%v)", d.name, err)
+				}
+				if err := didv.IsValidOriginalDocument(b); (err == nil) != d.okDID {
+					c.Failf("original-did-document:"+d.name, map[string]interface{}{"document": string(b), "err": fmt.Sprint(err), "expected_valid": d.okDID}, "DID validator: original document %q verdict wrong (err=%v)", d.name, err)
+				}
 			}
 		}
 		c.Sample(map[string]interface{}{"document": docs[3].doc, "expected": "refused (carries an id)"})
